@@ -43,25 +43,26 @@ type DecorSpec struct {
 
 // BarSpec describes one bar; it is created by an "add" step.
 type BarSpec struct {
-	Total        int64       `json:"total"`
-	Priority     *int        `json:"priority,omitempty"`
-	Trim         bool        `json:"trim,omitempty"`
-	RmOnComplete bool        `json:"rm,omitempty"`
-	NoPop        bool        `json:"nopop,omitempty"`
-	QueueAfter   int         `json:"after"` // index of the predecessor bar, -1 = none
-	Decors       []DecorSpec `json:"decors,omitempty"`
-	Filler       string      `json:"filler,omitempty"` // bar (default) | spinner | spinnerv (frames of different widths) | nop | tag
-	ExtRows      int         `json:"ext_rows,omitempty"`
-	ExtRev       bool        `json:"ext_rev,omitempty"`
-	ExtNoNL      bool        `json:"ext_nonl,omitempty"`    // extender output ends without newline
-	OnComplete   bool        `json:"on_complete,omitempty"` // BarFillerOnComplete("DONE")
-	OnAbort      bool        `json:"on_abort,omitempty"`    // BarFillerOnAbort("ABRT")
-	FillErrAt    int         `json:"fill_err_at,omitempty"` // k-th Fill call fails (1-based)
-	ExtErrAt     int         `json:"ext_err_at,omitempty"`  // k-th extender call fails
-	BarWidth     int         `json:"bar_width,omitempty"`
-	NoTag        bool        `json:"no_tag,omitempty"`
-	ID           int         `json:"id,omitempty"`       // BarID option (0 = not set)
-	Builtins     []string    `json:"builtins,omitempty"` // built-in decorators appended: avgeta avgspeed ewmaeta ewmaspeed pct counters elapsed name spinner
+	Total          int64       `json:"total"`
+	Priority       *int        `json:"priority,omitempty"`
+	Trim           bool        `json:"trim,omitempty"`
+	RmOnComplete   bool        `json:"rm,omitempty"`
+	NoPop          bool        `json:"nopop,omitempty"`
+	QueueAfter     int         `json:"after"` // index of the predecessor bar, -1 = none
+	Decors         []DecorSpec `json:"decors,omitempty"`
+	Filler         string      `json:"filler,omitempty"` // bar (default) | spinner | spinnerv (frames of different widths) | nop | tag
+	ExtRows        int         `json:"ext_rows,omitempty"`
+	ExtRev         bool        `json:"ext_rev,omitempty"`
+	ExtNoNL        bool        `json:"ext_nonl,omitempty"`         // extender output ends without newline
+	OnComplete     bool        `json:"on_complete,omitempty"`      // BarFillerOnComplete("DONE")
+	OnAbort        bool        `json:"on_abort,omitempty"`         // BarFillerOnAbort("ABRT")
+	FillErrAt      int         `json:"fill_err_at,omitempty"`      // k-th Fill call fails (1-based)
+	FillErrRelease bool        `json:"fill_err_release,omitempty"` // the failing Fill call ends a pending render delay before it returns its error
+	ExtErrAt       int         `json:"ext_err_at,omitempty"`       // k-th extender call fails
+	BarWidth       int         `json:"bar_width,omitempty"`
+	NoTag          bool        `json:"no_tag,omitempty"`
+	ID             int         `json:"id,omitempty"`       // BarID option (0 = not set)
+	Builtins       []string    `json:"builtins,omitempty"` // built-in decorators appended: avgeta avgspeed ewmaeta ewmaspeed pct counters elapsed name spinner
 }
 
 // Step is one client operation.
